@@ -64,9 +64,36 @@ def params_grid(ind, periods):
     return out
 
 
-def feed(r, ind, n, slot=0, specials=0.0, bars=None):
-    return feed_ops(r, ind, n, slot=slot, specials=specials, bars=bars)
+def feed(r, ind, n, slot=0, specials=0.0, bars=None, p=None, positive=False):
+    return feed_ops(r, ind, n, slot=slot, specials=specials, bars=bars, p=p, positive=positive)
 
 
 def retarget(ops, slot):
     return [(o[0], slot) + tuple(o[2:]) for o in ops]
+
+
+SCALES = [-70, -45, -30, 35]
+
+
+def scale_ops(ops, k, keep_volume=True):
+    """multiply every price input by 2^k (exact in binary64 absent over/underflow); volume (5th bar field) kept"""
+    f = 2.0 ** k
+    out = []
+    for o in ops:
+        if o[0] == "n":
+            out.append((o[0], o[1], o[2] * f))
+        elif o[0] in ("b", "i"):
+            out.append((o[0], o[1]) + tuple(v * f for v in o[2:6]) + ((o[6],) if keep_volume else (o[6] * f,)))
+        else:
+            out.append(o)
+    return out
+
+
+def with_scaled(cases, r, frac=0.35, scales=SCALES):
+    """append power-of-two rescaled copies of a sample of the cases (tiny and huge price units)"""
+    extra = []
+    for c in cases:
+        if r.random() < frac:
+            k = r.choice(scales)
+            extra.append(Case("%s_x2^%d" % (c.cid, k), scale_ops(c.ops, k), dump=c.dump, meta=dict(c.meta, scale=k)))
+    return cases + extra
